@@ -103,6 +103,17 @@ def check_case(ctx, case):
         return 'drawing %d: a character lies %.1f px from the circle (one cell diagonal is %.1f)' % (case['idx'], worst, DIAG)
     if cls != ('nofill',):
         return 'circle classes %r' % (cls,)
+    if not comp and not case.get('previous') and case.get('two_step'):
+        # the same page through get_fragment_spans + fragments_to_node, at another scale as well
+        for sc_ in (8.0, 2.5):
+            r7 = ctx.conv(gen.text_of(rows), entry=7, scale=sc_, ow=float(sc.W), oh=float(sc.H))
+            if not r7.ok:
+                return 'conversion failed: ' + r7.fail_text()
+            s7 = Scene(r7.out, sc=F(repr(sc_)) / 8)
+            if s7.els != els:
+                return 'through get_fragment_spans + fragments_to_node (scale %s) the drawing is %s instead of %s' % (
+                    sc_, [show_el(e) for e in s7.els[:3]], [show_el(e) for e in els[:3]])
+        ctx.tag('two_step_path_conversions')
     return None
 
 
@@ -118,7 +129,7 @@ def run_shard(ctx, shard):
         comp = None
         if rng.random() < 0.4:
             comp = (rng.choice(COMPANIONS), rng.choice(['right', 'below']))
-        case = {'idx': idx, 'art': art, 'ox': ox, 'oy': oy, 'companion': comp}
+        case = {'idx': idx, 'art': art, 'ox': ox, 'oy': oy, 'companion': comp, 'two_step': rng.random() < 0.3}
         if rng.random() < 0.2:
             case['previous'] = rng.choice(['+--+\n|  |\n+--+\n', 'abc def\n', ' .-.\n(   )\n `-\'\n', '-->\n', '\n'])
         ctx.run_case(case)
